@@ -755,7 +755,7 @@ def fixed_cases(tier="quick"):
                                                        [{"force_cyclic": True, "numeric_croots": True, "numeric_eps": "1e-10"},
                                                         {"force_cyclic": True, "numeric_roots": True, "numeric_eps": "1e-10"}],
                                                        {"profile:fixed", "companion:3real", "inhomogeneous", "root-options"})))
-    if tier != "quick":
+    if True:
         # (x^2-x-1)(x^3-x-1) with numeric_croots: exact (1+-sqrt5)/2 mixed with 15-digit floats in sympy linsolve (~25 s)
         A, _ = block_sum([companion(COMPANIONS["fib"]), companion(COMPANIONS["plastic"])])
         out.append(("fixed-fib-plastic-croots", sysd(["u0", "u1", "u2", "u3", "u4"], A, [0] * 5, [1, 0, 1, 0, 2],
